@@ -41,10 +41,25 @@ func (c *Ctx) check16m(code []g.Instruction, start int, M uint64, legacy bool, n
 		if !legacy && nop94 {
 			cfg.Mode = g.NOP94 // the third mode value: a '94 dialect, listed like ICWS94
 		}
-		sim, err := g.NewSimulator(cfg)
-		if err != nil {
-			pan = "config rejected: " + err.Error()
-			return
+		var sim g.Simulator
+		var err error
+		key := fmt.Sprint(M, legacy, nop94)
+		if M > 1<<22 {
+			// very large cores: one simulator serves all warriors of the configuration
+			sim = c.bigSims[key]
+		}
+		if sim == nil {
+			sim, err = g.NewSimulator(cfg)
+			if err != nil {
+				pan = "config rejected: " + err.Error()
+				return
+			}
+			if M > 1<<22 {
+				if c.bigSims == nil {
+					c.bigSims = map[string]g.Simulator{}
+				}
+				c.bigSims[key] = sim
+			}
 		}
 		w, err := sim.AddWarrior(&g.WarriorData{Code: code, Start: start})
 		if err != nil {
@@ -154,7 +169,30 @@ func (c *Ctx) RunC16(tier string) {
 			}
 		}
 	}
-	rep.Bound = fmt.Sprintf("per dialect (ICWS88, ICWS94, and NOP94 for half of the '94 warriors): every legal instruction form x every field pair for M in %v; boundary fields {0,1,M/2,M/2+1,M-1} for M in {80,8000,8192}, each also paired with the values at which the printed width changes (+-9, +-10, +-99, +-100, +-999, +-1000); all 2- and 3-instruction warriors over a 12-form alphabet with every entry point; warriors of 12 and 120 instructions under M in {8000, 100003, 1000003}", small)
+	// a core above 2^26 cells: one- and two-line warriors over fields around the powers of two
+	if c.Sh.I == 2%c.Sh.N {
+		M := uint64(1<<26 + 3)
+		fv := []uint64{0, 1, 1 << 24, 1<<25 - 1, 1 << 25, 1<<25 + 1, M / 2, M/2 + 1, M - 1}
+		for _, legacy := range []bool{false, true} {
+			var lines []g.Instruction
+			for _, a := range fv {
+				for _, b := range fv {
+					lines = append(lines, g.Instruction{Op: g.MOV, OpMode: g.I, AMode: g.DIRECT, A: g.Address(a), BMode: g.B_INDIRECT, B: g.Address(b)})
+				}
+			}
+			for i, l1 := range lines {
+				c.check16([]g.Instruction{l1}, 0, M, legacy)
+				for j, l2 := range lines {
+					if thorough || (i+j)%3 == 0 {
+						c.check16([]g.Instruction{l1, l2}, j%2, M, legacy)
+					}
+				}
+			}
+			rep.Count("c16:cores-above-2^26")
+		}
+		c.bigSims = nil
+	}
+	rep.Bound = fmt.Sprintf("a core of 2^26+3 cells: every one-line and (quick: a third of) every two-line warrior over MOV.I $a @b with a, b in {0, 1, 2^24, 2^25-1, 2^25, 2^25+1, M/2, M/2+1, M-1}; per dialect (ICWS88, ICWS94, and NOP94 for half of the '94 warriors): every legal instruction form x every field pair for M in %v; boundary fields {0,1,M/2,M/2+1,M-1} for M in {80,8000,8192}, each also paired with the values at which the printed width changes (+-9, +-10, +-99, +-100, +-999, +-1000); all 2- and 3-instruction warriors over a 12-form alphabet with every entry point; warriors of 12 and 120 instructions under M in {8000, 100003, 1000003}", small)
 	sim, _ := g.NewSimulator(cfgOf(8000, false))
 	w, _ := sim.AddWarrior(&g.WarriorData{Code: alphabet12(false, 8000)[1:4], Start: 1})
 	rep.Sample(w.LoadCode())
